@@ -110,13 +110,15 @@ PairsOk(S, ms, top) ==
         /\ t = "DATA" => /\ top /\ i > 1 /\ ms[i - 1].n + 1 = ms[i].n /\ FieldDef(S, ms[i - 1].n).type = "LENGTH"
 RECURSIVE PairsOkDeep(_, _, _)
 PairsOkDeep(S, ms, top) == PairsOk(S, ms, top) /\ \A i \in DOMAIN ms : ms[i].g => PairsOkDeep(S, ms[i].sub, FALSE)
+\* lim: a component may reference only components declared before it (index < lim): no cycles; 0 = any component
+CompIdx(S, c) == CHOOSE i \in DOMAIN S.comps : S.comps[i].name = c
 RECURSIVE RefsOk(_, _, _)
-RefsOk(S, items, inComp) ==
+RefsOk(S, items, lim) ==
     \A i \in DOMAIN items :
         LET e == items[i] IN
         CASE e.k = "f" -> HasField(S, e.n)
-          [] e.k = "g" -> HasField(S, e.n) /\ FieldDef(S, e.n).type \in IntTypes /\ RefsOk(S, e.sub, inComp)
-          [] e.k = "c" -> ~inComp /\ HasComp(S, e.c)
+          [] e.k = "g" -> HasField(S, e.n) /\ FieldDef(S, e.n).type \in IntTypes /\ RefsOk(S, e.sub, lim)
+          [] e.k = "c" -> HasComp(S, e.c) /\ (lim = 0 \/ CompIdx(S, e.c) < lim)
 ValidSchema(S) ==
     /\ NoDup([i \in DOMAIN S.fields |-> S.fields[i].num]) /\ NoDup([i \in DOMAIN S.fields |-> S.fields[i].name])
     /\ NoDup([i \in DOMAIN S.msgs |-> S.msgs[i].mt]) /\ NoDup([i \in DOMAIN S.msgs |-> S.msgs[i].name])
@@ -124,9 +126,9 @@ ValidSchema(S) ==
     /\ \A i \in DOMAIN S.fields : /\ S.fields[i].type \in DOMAIN TypeEnum
                                   /\ S.fields[i].num \in 1..65535
                                   /\ NoDup([j \in DOMAIN S.fields[i].vals |-> S.fields[i].vals[j][1]])
-    /\ RefsOk(S, S.hdr, FALSE) /\ RefsOk(S, S.trl, FALSE)
-    /\ \A i \in DOMAIN S.comps : RefsOk(S, S.comps[i].items, TRUE)
-    /\ \A i \in DOMAIN S.msgs : RefsOk(S, S.msgs[i].items, FALSE)
+    /\ RefsOk(S, S.hdr, 0) /\ RefsOk(S, S.trl, 0)
+    /\ \A i \in DOMAIN S.comps : RefsOk(S, S.comps[i].items, i)
+    /\ \A i \in DOMAIN S.msgs : RefsOk(S, S.msgs[i].items, 0)
     \* every message type has an entry among the enumerated values of MsgType (f8c demands it)
     /\ HasField(S, 35) /\ \A i \in DOMAIN S.msgs : \E j \in DOMAIN FieldDef(S, 35).vals : FieldDef(S, 35).vals[j][1] = S.msgs[i].mt
     \* a tag occurs once in a message (header, body with all its groups, trailer)
